@@ -215,6 +215,11 @@ FAULT_KINDS = {
 FRESH_PROCESS_HOOK = None      # set by the runner: restores the package state of a fresh interpreter
 
 
+class SimDeadlock(BaseException):
+    """The real system would block for ever at this point (not an Exception: no handler of the tool is
+    meant to turn it into something else)."""
+
+
 class SimCrash(BaseException):
     """The process is killed at this point (not an Exception: ordinary handlers do not see it)."""
 _ERRNO = {"EACCES": errno.EACCES, "ENOSPC": errno.ENOSPC, "EMFILE": errno.EMFILE,
